@@ -69,35 +69,45 @@ impl KeyboardLayout for De105Key {
                 }
             }
             KeyCode::Key7 => {
-                if modifiers.is_shifted() {
+                if modifiers.is_altgr() {
+                    DecodedKey::Unicode('{')
+                } else if modifiers.is_shifted() {
                     DecodedKey::Unicode('/')
                 } else {
                     DecodedKey::Unicode('7')
                 }
             }
             KeyCode::Key8 => {
-                if modifiers.is_shifted() {
+                if modifiers.is_altgr() {
+                    DecodedKey::Unicode('[')
+                } else if modifiers.is_shifted() {
                     DecodedKey::Unicode('(')
                 } else {
                     DecodedKey::Unicode('8')
                 }
             }
             KeyCode::Key9 => {
-                if modifiers.is_shifted() {
+                if modifiers.is_altgr() {
+                    DecodedKey::Unicode(']')
+                } else if modifiers.is_shifted() {
                     DecodedKey::Unicode(')')
                 } else {
                     DecodedKey::Unicode('9')
                 }
             }
             KeyCode::Key0 => {
-                if modifiers.is_shifted() {
+                if modifiers.is_altgr() {
+                    DecodedKey::Unicode('}')
+                } else if modifiers.is_shifted() {
                     DecodedKey::Unicode('=')
                 } else {
                     DecodedKey::Unicode('0')
                 }
             }
             KeyCode::OemMinus => {
-                if modifiers.is_shifted() {
+                if modifiers.is_altgr() {
+                    DecodedKey::Unicode('\\')
+                } else if modifiers.is_shifted() {
                     DecodedKey::Unicode('?')
                 } else {
                     DecodedKey::Unicode('ß')
